@@ -46,7 +46,7 @@ Theorem C11_signature_field : forall s : sig, wf s = true -> parse_sig (show_np 
 Proof. exact parse_show_np. Qed.
 Print Assumptions C11_signature_field.
 
-(* Typed body values for the shapes s, u and (su): body().deserialize returns the value that was built. *)
+(* Typed body values for the shapes s, u, (su) and as: body().deserialize returns the value that was built. *)
 Theorem C11_typed_s : forall (h : hdr) (nfds : N) (s : bytes), dstr s ->
   let bd := enc_s (h_endian h) s in
   dec_typed (ShS s) (h_endian h) (spec_message h SStr bd nfds) (body_offset_of h SStr bd nfds) nfds = Ok (TS s).
@@ -65,6 +65,13 @@ Theorem C11_typed_su : forall (h : hdr) (nfds : N) (s : bytes) (n : N), dstr s -
   dec_typed (ShSU s n) (h_endian h) (spec_message h g bd nfds) (body_offset_of h g bd nfds) nfds = Ok (TSU s n).
 Proof. exact typed_su. Qed.
 Print Assumptions C11_typed_su.
+
+Theorem C11_typed_as : forall (h : hdr) (nfds : N) (l : list bytes), Forall dstr l -> len (enc_as (h_endian h) l) < two32 ->
+  let bd := enc_as (h_endian h) l in
+  let g := SArray SStr in
+  dec_typed (ShAS l) (h_endian h) (spec_message h g bd nfds) (body_offset_of h g bd nfds) nfds = Ok (TAS l).
+Proof. exact typed_as. Qed.
+Print Assumptions C11_typed_as.
 
 (* non-vacuity: a big-endian error reply with six header fields, a (su) body and two descriptors meets the hypotheses *)
 Definition C11_example_hdr : hdr :=
